@@ -222,6 +222,11 @@ def check(case):
     if why:
         return Result(skipped=why)
     var = make_variant(case)
+    # the domain of the statement is a property of the DESCRIPTION: after a split, pieces that were one wire are only
+    # joined through one another, so wires that were neighbours of neighbours may no longer be
+    why = rules.check(var)
+    if why:
+        return Result(skipped='variant: ' + why)
     tv, _ = gen.stand_in_topology(var)
     t0s, _ = gen.stand_in_topology(base)     # same division rule on both sides for the mapping of indices
     tol_pos = 10 * max(t0.tol, tv.tol)
@@ -288,7 +293,7 @@ def check(case):
 
     # impedances
     for a, b in zip(m0.sources, m1.sources):
-        if abs(a.impedance - b.impedance) > tol * abs(a.impedance):
+        if abs(a.impedance - b.impedance) > tol * common.port_amp(m0, a) * abs(a.impedance):
             fails.append(('impedance' + suffix_(), 'feed impedance %r in the base description, %r in the variant (cond %.3g)' % (a.impedance, b.impedance, c)))
             break
     # currents by position
